@@ -72,7 +72,9 @@ def decode_obligations(ck, r, tag, n, form, bytevars, failures):
         o = p['obs']
         pt = '%s.path%d' % (tag, p['id'])
         accepted = bool(o['err'].get('nil'))
-        okf = ck.ground(pt + '.frame', 'input bytes are never written', not p['writes'], str(p['writes'][:1]))
+        okf = ck.ground(pt + '.frame', 'input bytes are never written, no state outside the receiver is touched', not p['writes'], str(p['writes'][:1]))
+        if not okf:
+            failures.append(pt + '.frame')
         if accepted:
             got = coords(low, o, 'E')
             if acc == 'false':
